@@ -12,29 +12,43 @@ modes:  api       one alternative, driven through engine.unify generators held o
         findall   p(L) :- findall(w(probes), q(args), L).  over the same compiled clauses
 """
 import random, itertools
-from lib import terms
+from lib import terms, semcheck
 from lib.terms import g_term, g_list, g_pair, g_nat
+from props import c15_prog as P
 
 ID = 'C15'
-IMPORTS = ['Unify.Unify', 'Unify.RunUnify', 'Engine.GetValue', 'Engine.RunGetValue']
+IMPORTS = ['Unify.Unify', 'Unify.RunUnify', 'Engine.GetValue', 'Engine.RunGetValue'] + [i for i in P.IMPORTS if i not in ('Unify.Unify',)]
+COQ_CHUNK = 60
 THEOREMS = ['C15_get_value_is_resolve', 'C15_resolved_unique', 'C15_get_value_total_wf',
             'C15_get_value_total_acyclic', 'C15_order_irrelevant', 'C15_ground_value_stable',
             'C15_findall_bag_stable', 'C15_to_python_resolve', 'C15_to_python_spec',
-            'C15_to_python_spec_cases', 'C15_ground_to_python_stable']
+            'C15_to_python_spec_cases', 'C15_ground_to_python_stable',
+            'C15_get_value_allocates_its_result', 'C15_value_structure_stable', 'C15_engine_steps_evolve']
 RULE = ('binding forests over 2-7 variables (each bound variable gets a term over higher-ranked variables: chains of '
         '1-4 variables ending in a structure, structures with inner variables) emitted as equations in a random or '
         'exhaustively permuted order, so that the same answer is reached outer-structure-first, inner-first and through '
         'variable chains; plus random nearly-unifying pairs; run through engine.unify (api), through compiled clauses '
         '(documented `[get_value(..) for _ in q]` idiom + assertz) and through findall/3.  Non-trivial: at the answer some '
         'variable cell stores a structure that contains (unresolved) a variable which is bound now, i.e. the inner '
-        'variable was bound later than the structure, and a probe reaches it.  Distinct by hash of the case.')
+        'variable was bound later than the structure, and a probe reaches it.  Distinct by hash of the case.  '
+        'Round 3, mode prog (props/c15_prog.py): programs in which a (partial) goal term reaches call/1..N with extra arguments, once/1, '
+        'findall/3 and helper predicates directly / flipped / inside a structure / through variable chains / inline / as a query argument '
+        '(random programs + the product of these ways x groundness x meta call), 20% also through asserta/assertz/retract/retractall; every '
+        'query run compiled and through the API (one yp.query generator per body goal); get_value and to_python of EVERY query variable and '
+        'get_value of every live Variable at every answer; compared with the Coq model of whole programs (Sem/Machine.v).  Non-trivial '
+        'there: the query has an answer and a goal with extra arguments / findall / once / an outer-first unification was run.  '
+        'Retention in all modes: every value obtained and every argument list passed in is kept with a structural snapshot, re-rendered '
+        'after every later engine operation (must be unchanged), and must share no Functor / _args object with other retained values, '
+        'live variable cells, stored facts or caller-built terms.')
 TRUSTED_BASE = [
     'Coq 8.16.1 kernel (coqc); vm_compute for the in-Coq evaluation of the model on every case; no native_compute',
     'no axioms: all C15 theorems are closed under the global context',
     'hand-written model Engine/GetValue.v of engine.py get_value / Variable.get_value / Functor.get_value / to_python; '
     'tied to /repo by this differential run (not by translation)',
     'the store at the answer is computed by the C02 model of unify (Unify/Unify.v) from the same equations',
-    'harness: generators, driver of the implementation (harness/props/c15.py), parser of the printed observations',
+    'harness: generators, driver of the implementation (harness/props/c15.py, c15_prog.py), parser of the printed observations',
+    'mode prog: the model of whole programs Sem/Machine.v (query) through Engine/RunAnswers.v, reading the same source text with the model front end Lang/Front.v',
+    'object-level model Engine/ValueHeap.v: tied to the implementation by the retention oracle (fresh Functor/_args objects, unchanged structure), not by differential evaluation',
 ]
 ASSUMPTIONS = ['raw Python constants are ints and strs', 'cases whose equations need a cyclic term (model: cyc) are unspecified',
                'the Python recursion depth needed by get_value (the fuel of gv) is not compared, only that it returns']
@@ -229,6 +243,16 @@ def gen(rng, tier):
                 cases.append({'mode': mode, 'nargs': 1, 'nvars': nv, 'alts': [[eqs[i] for i in p]],
                               'probes': [['v', 0], ['f', 'w', [['v', 0]]], terms.mklist([['v', 0]])] if mode != 'findall' else [['f', 'w', [['v', 0]]]],
                               'shuffle': len(cases) % 7, 'listsyntax': True, 'origin': 'orders'})
+    # terms passed through the builtins and API paths that take a term apart or build on it (props/c15_prog.py)
+    prog = [P.gen_random(rng) for _ in range(150 if tier == "quick" else 2000)]
+    paths = P.gen_paths()
+    if tier == 'quick':
+        paths = rng.sample(paths, 90)
+    prog.extend(paths)
+    # spread over the whole list: the model evaluation of a program costs more than that of a binding forest
+    step = max(1, len(cases) // (len(prog) + 1))
+    for k, c in enumerate(prog):
+        cases.insert(min(len(cases), (k + 1) * step + k), c)
     return cases
 
 def _fixed_sets():
@@ -273,6 +297,8 @@ def builtin_corpus():
 # ---------------------------------------------------------------- model side
 
 def model_expr(case):
+    if case['mode'] == 'prog':
+        return P.model_expr(case)
     alts = g_list([g_list([g_pair(g_term(a), g_term(b)) for a, b in alt]) for alt in case['alts']])
     return '(run_gv %s %s %s %s)' % (g_nat(FUEL), g_nat(case['shuffle']), alts, g_list([g_term(p) for p in case['probes']]))
 
@@ -318,18 +344,26 @@ def _late(E, variables):
             return True
     return False
 
-def _observe(E, T, objs):
-    """at an answer: per probe [get_value read structurally, to_python, independent deref, flags]"""
+def _observe(E, T, objs, W=None, yp=None, n=0):
+    """at an answer: per probe [get_value read structurally, to_python, independent deref, flags]; every value obtained
+    is retained by W and all values retained so far are looked at again (props/c15_prog.py Watch)"""
     out = []
     saved = []
-    for o in objs:
+    for k, o in enumerate(objs):
         gvr = E.get_value(o)
         saved.append(gvr)
+        if W is not None:
+            W.retain('the get_value result of probe %d at answer %d' % (k, n), gvr)
         viam = o.get_value() if isinstance(o, E.IUnifiable) else o
         out.append({'gv': T.read(gvr, resolve=False), 'leak': _leaks(E, gvr),
                     'same_method': T.read(viam, resolve=False) == T.read(gvr, resolve=False),
                     'py': _to_python(E, o), 'py_of_value': _to_python(E, gvr),
                     'deref': T.read(o, resolve=True)})
+    if W is not None:
+        for v in list(E._VERIF_VARIABLES)[:P.LIVE_CAP]:
+            W.retain('the value of a variable of the running program at answer %d' % n, v.get_value())
+        W.check('at answer %d' % n)
+        W.sharing('at answer %d' % n, [yp] if yp is not None else [], [objs])
     return out, saved
 
 def _zz_all(E, yp):
@@ -345,12 +379,17 @@ def _zz_all(E, yp):
             pass
     return held
 
-def _after(E, T, yp, saved_per_answer, obs_per_answer):
+def _after(E, T, yp, saved_per_answer, obs_per_answer, W=None, roots=()):
     for saved, obs in zip(saved_per_answer, obs_per_answer):
         for gvr, o in zip(saved, obs):
             o['after_close'] = T.read(gvr, resolve=True)
             o['py_after_close'] = _to_python(E, gvr)
+    if W is not None:
+        W.check('after the query was closed')
+        W.sharing('after the query was closed', [yp], roots)
     held = _zz_all(E, yp)
+    if W is not None:
+        W.check('after a later query bound every variable to zz')
     for saved, obs in zip(saved_per_answer, obs_per_answer):
         for gvr, o in zip(saved, obs):
             o['after_rebind'] = T.read(gvr, resolve=True)
@@ -432,6 +471,8 @@ def impl(case):
     from yldprolog import engine as E
     E._VERIF_VARIABLES.clear()
     try:
+        if case['mode'] == 'prog':
+            return P.impl(case, E, pyjson, _py_of_json)
         return _impl(case, E)
     except RecursionError:
         return {'mode': case['mode'], 'answers': 'cyc-or-deep'}
@@ -441,6 +482,7 @@ def _impl(case, E):
     mode = case['mode']
     T = terms.ImplTerms(yp, case['nvars'])
     res = {'mode': mode}
+    W = P.Watch(E)
     if mode == 'api':
         held = []
         ok = True
@@ -461,16 +503,19 @@ def _impl(case, E):
         if ok:
             objs = [T.build(p) for p in case['probes']]
             try:
-                o, s = _observe(E, T, objs)
+                o, s = _observe(E, T, objs, W, yp, 1)
             except RecursionError:
                 return {'mode': mode, 'answers': 'cyc-or-deep'}
             res['late'] = _late(E, T.vars)
+            W.retain('the list of values the caller passed to assert_fact', objs)
             yp.assert_fact(yp.atom('saved'), objs)
+            W.check('after assert_fact')
             answers.append(o); saved.append(s)
         for h in reversed(held):
             h.close()
         res['unbound_after'] = not any(T.bound_state())
-        _after(E, T, yp, saved, answers)
+        _after(E, T, yp, saved, answers, W, [objs] if ok else [])
+        res['retention'] = W.problems[:2]; res['sharing'] = W.hazards[:1]
         res['answers'] = answers
         res['asserted'] = _read_saved(E, yp, len(case['probes']))
         return res
@@ -485,15 +530,17 @@ def _impl(case, E):
         late = False
         try:
             # the documented idiom: collect get_value results while enumerating
+            W.retain('the argument list the caller passed to query()', args)
             for _ in yp.query('q', args):
-                o, s = _observe(E, T, objs)
+                o, s = _observe(E, T, objs, W, yp, len(answers) + 1)
                 late = late or _late(E, list(E._VERIF_VARIABLES))
                 answers.append(o); saved.append(s)
         except RecursionError:
             return {'mode': mode, 'answers': 'cyc-or-deep'}
         res['late'] = late
         res['unbound_after'] = not any(v._is_bound for v in E._VERIF_VARIABLES)
-        _after(E, T, yp, saved, answers)
+        _after(E, T, yp, saved, answers, W, [objs, args])
+        res['retention'] = W.problems[:2]; res['sharing'] = W.hazards[:1]
         res['answers'] = answers
         res['asserted'] = _read_saved(E, yp, len(case['probes']))
         return res
@@ -503,13 +550,14 @@ def _impl(case, E):
     saved = []
     try:
         for _ in yp.query('p', [L]):
-            o, s = _observe(E, T, [L])
+            o, s = _observe(E, T, [L], W, yp, len(answers) + 1)
             answers.append(o); saved.append(s)
     except RecursionError:
         return {'mode': mode, 'answers': 'cyc-or-deep'}
     res['late'] = None
     res['unbound_after'] = not any(v._is_bound for v in E._VERIF_VARIABLES)
-    _after(E, T, yp, saved, answers)
+    _after(E, T, yp, saved, answers, W)
+    res['retention'] = W.problems[:2]; res['sharing'] = W.hazards[:1]
     res['answers'] = answers
     return res
 
@@ -584,8 +632,12 @@ def _is_ground(t):
     return not terms.term_vars(t)
 
 def oracle(case, io):
+    if case.get('mode') == 'prog':
+        return P.oracle(case, io)
     if not isinstance(io, dict) or io.get('answers') == 'cyc-or-deep':
         return None
+    if io.get('retention'):
+        return io['retention'][0]
     if not io.get('unbound_after', True):
         return 'a variable is still bound after the query was closed'
     for ans in io['answers']:
@@ -619,6 +671,8 @@ def _zap_json(t):
     return t
 
 def compare(case, io, mo):
+    if case.get('mode') == 'prog':
+        return P.compare(case, io, mo)
     ma = _model_answers(mo)
     if ma == 'oof':
         return 'model ran out of fuel (harness problem)'
@@ -650,6 +704,8 @@ def compare(case, io, mo):
             return 'to_python of the findall bag is %r, model: %r' % (o['py'], exp_py)
         if _canon([o['after_rebind']]) != _canon([_zap_json(exp)]):
             return 'saved findall bag after re-binding is %s, model: %s' % (terms.show_term(o['after_rebind']), terms.show_term(_zap_json(exp)))
+        if io.get('sharing'):
+            return io['sharing'][0]
         return None
     if len(io['answers']) != len(ma):
         return 'implementation has %d answers, model %d' % (len(io['answers']), len(ma))
@@ -671,9 +727,13 @@ def compare(case, io, mo):
     exp_asserted = [_canon([terms.obs_term(p['gv'][1]) for p in alt]) for alt in ma]
     if io.get('asserted') != exp_asserted:
         return 'asserted terms read back as %r, model: %r' % (io.get('asserted'), exp_asserted)
+    if io.get('sharing'):
+        return io['sharing'][0]
     return None
 
 def nontrivial(case, io):
+    if case.get('mode') == 'prog':
+        return P.nontrivial(case, io)
     if not isinstance(io, dict) or not isinstance(io.get('answers'), list) or not io['answers']:
         return False
     if case.get('tree'):
@@ -685,6 +745,8 @@ def nontrivial(case, io):
     return bool(io.get('late'))
 
 def describe(case):
+    if case.get('mode') == 'prog':
+        return P.describe(case)
     d = {'mode': case['mode'],
          'alternatives': [['%s = %s' % (terms.show_term(a), terms.show_term(b)) for a, b in alt] for alt in case['alts']],
          'probes': [terms.show_term(p) for p in case['probes']]}
@@ -708,6 +770,9 @@ def _tree_shrinks(node):
         yield {'eqs': node['eqs'] + k['eqs'], 'kids': k['kids']}
 
 def shrink(case):
+    if case.get('mode') == 'prog':
+        yield from P.shrink(case)
+        return
     if case.get('tree'):
         c = dict(case); c.pop('tree')        # the same alternatives as flat clauses: does the layout matter?
         yield c
@@ -735,8 +800,27 @@ def shrink(case):
 def distribution(cases, obs):
     d = {'mode': {}, 'answers': {}, 'late_inner_binding': 0, 'ground_answers': 0, 'nonground_answers': 0,
          'to_python_errors': 0, 'equations_per_alt': {}}
+    d['prog'] = {'programs': 0, 'origin_paths': 0, 'answers': 0, 'queries_with_answers': 0, 'values_retained': 0, 'retention_checks': 0,
+                 'features': {}, 'cyclic_or_deep': 0}
     for c, o in zip(cases, obs):
         d['mode'][c['mode']] = d['mode'].get(c['mode'], 0) + 1
+        if c['mode'] == 'prog':
+            pd = d['prog']
+            pd['programs'] += 1
+            pd['origin_paths'] += 1 if c.get('origin') == 'paths' else 0
+            for f in c.get('features', []):
+                pd['features'][f] = pd['features'].get(f, 0) + 1
+            if isinstance(o, dict) and 'drivers' in o:
+                for drv, qs in o['drivers'].items():
+                    for iq in qs:
+                        if iq['end'] == 'cyc-or-deep':
+                            pd['cyclic_or_deep'] += 1
+                            continue
+                        pd['answers'] += iq['count']
+                        pd['queries_with_answers'] += 1 if iq['count'] else 0
+                        pd['values_retained'] += iq.get('retained', 0)
+                        pd['retention_checks'] += iq.get('checks', 0)
+            continue
         for alt in c['alts']:
             k = str(len(alt)); d['equations_per_alt'][k] = d['equations_per_alt'].get(k, 0) + 1
         if not isinstance(o, dict) or not isinstance(o.get('answers'), list):
